@@ -284,6 +284,20 @@ def kernel_corpus(w, target):
 
 # ------------------------------------------------------------------ one case
 
+def blind(w, data):
+    """the datagram names no SPI that was ever on the wire or is held by an IKE_SA (zero is no SPI)"""
+    if len(data) < 16:
+        return True
+    known = set()
+    for ep in w.endpoints.values():
+        for sa in ep.controller.ike_sas:
+            known.update((bytes(sa.my_spi), bytes(sa.peer_spi)))
+    for d in w.sent_log:
+        known.update((d.data[0:8], d.data[8:16]))
+    known.discard(b'\0' * 8)
+    return data[0:8] not in known and data[8:16] not in known
+
+
 def inject_and_finish(w0, kind, target, label, payload, src=None):
     w = w0.fork()
     before_lines = None
@@ -307,6 +321,10 @@ def inject_and_finish(w0, kind, target, label, payload, src=None):
     probs = healthy(w)
     if not probs:
         return [], lines
+    if kind == 'dgram' and src != STRANGER and blind(w0, payload):
+        # a sender that knows none of the SPIs in use (it has seen no traffic) cannot be told from the peer by its
+        # address, but nothing it sends may touch an exchange in flight: those are all identified by their SPIs
+        return [('blind-sender-disturbed-session', probs[0])], lines
     if src == STRANGER and kind == 'dgram' and not label.startswith('authentic'):
         # garbage from somebody else must not interfere with the session between A and B at all (a replayed copy
         # of an authentic datagram is executed whoever carries it: C08 judges that)
